@@ -140,3 +140,18 @@ def c12_c_empty_implicit_first_document(case, detail):
     if case.get('level') == 'nodes':
         return first == 0 and not (o.get('explicit_start') or o.get('version') or o.get('tags'))
     return False
+
+
+def c17_falsy_state(case, detail):
+    """the graph contains an object whose __getstate__ returns a falsy non-None value (0): PyYAML writes `state: 0` but on
+    load skips set_python_instance_state for a falsy state, pickle calls __setstate__(0); everything else agrees with pickle"""
+    from .props import c17
+    return c17.known_relaxed(case, 'falsy-state')
+
+
+def c17_scalar_subclass_sharing(case, detail):
+    """the graph references one instance of an int/str/float/bytes subclass (not an enum) from two places:
+    Representer.ignore_aliases treats it as a scalar, writes it twice, and the loader builds two objects; everything
+    else agrees with pickle"""
+    from .props import c17
+    return c17.known_relaxed(case, 'shared-scalar-subclass')
